@@ -44,6 +44,7 @@ def main (args : List String) : IO UInt32 := do
   | "C07full" :: rest => Driver.C07.mainFull rest; return 0
   | "C08" :: rest => Driver.C08.main rest; return 0
   | "C08sys" :: rest => Driver.C08.mainSys rest; return 0
+  | "C09sys" :: rest => Driver.C08.mainSys rest; return 0
   | "C09" :: rest => Driver.Mux.main rest; return 0
   | "C11" :: rest => Driver.Mux.main rest; return 0
   | "C09late" :: rest => Driver.Mux.mainLate rest; return 0
